@@ -277,7 +277,7 @@ axiom b2i2:   forall s Bytes {b2i(s)} :: len(s) == 2 && s[1] < 128 ==> b2i(s) ==
 
 func counterToBytes(counter) (r)
   pure
-  ensures [C14] 0 <= counter && counter < 32768 ==> len(r) == 2 && r[0] * 256 + r[1] == counter
+  ensures [C14] 0 <= counter && counter < 32768 ==> len(r) == 2 && r[0] * 256 + r[1] == counter && r[0] < 128 && r[1] < 256
 
 func counterFromBytes(counter) (r)
   pure
@@ -331,6 +331,109 @@ func VerifyPlacementSignatures(cid, msg, sigs) (ok)
     invariant counter == len(signers) && !isnil(signers) && $i <= len(sigs[i]) && distinctSigners(store, cid, msg, sigs[i], i, signers)
   loop 2
     invariant i == entry(i) && counter == len(signers) && !isnil(signers) && distinctSigners(store, cid, msg, sigs[i], i, signers)
+@*/
+
+/*@
+module pending
+props C14
+use common core
+use container roster
+dialect neovm
+
+// C14: the pending roster. AddNextEpochNodes appends the keys of one call under u<cid><vector><counter> at the counters
+// L+1 .. L+n, where L is the counter of the greatest key already stored under that prefix (0 if none): the two-byte
+// big-endian counter makes key order equal submission order (lemmas be16Monotone, pendingOrder), so an iteration over
+// the prefix yields everything accumulated since the prefix was last emptied, in the order it was submitted.
+pure upre(cid Bytes, v Int) Bytes = "u" ++ cid ++ byte(v)
+pure ctr(k Bytes) Int = k[34] * 256 + k[35]
+pure lastKey(s Store, cid Bytes, v Int) Bytes = skey(s, upre(cid, v), cnt(s, upre(cid, v)) - 1)
+pure lastCtr(s Store, cid Bytes, v Int) Int = cnt(s, upre(cid, v)) == 0 ? 0 : ctr(lastKey(s, cid, v))
+// input assumption (counters below 32768 per vector between two commits): the greatest stored key has a two-byte counter
+pure pendingWF(s Store, cid Bytes, v Int) Bool = cnt(s, upre(cid, v)) > 0 ==> len(lastKey(s, cid, v)) == 36 && lastKey(s, cid, v)[34] < 128
+pure isNew(k Bytes, cid Bytes, v Int, lo Int, hi Int) Bool = prefix(upre(cid, v), k) && len(k) == 36 && k[34] < 128 && k[35] < 256 && lo < ctr(k) && ctr(k) <= hi
+
+func AddNextEpochNodes(cID, placementVector, publicKeys)
+  requires [Pre] pendingWF(store, cID, placementVector) && lastCtr(store, cID, placementVector) + len(publicKeys) < 32768
+  ensures [C14] W(alphabet()) && len(cID) == 32 && placementVector < 255
+  ensures [C14] placementVector == 0 || cnt(old(store), upre(cID, placementVector - 1)) > 0
+  ensures [C14] forall j Int {publicKeys[j]} :: 0 <= j && j < len(publicKeys) ==> len(publicKeys[j]) == 33
+  // exactly the keys of this call appear, at the next counters, in the order given; nothing else changes
+  ensures [C14] forall k Bytes {store.opt(k)} :: isNew(k, cID, placementVector, lastCtr(old(store), cID, placementVector), lastCtr(old(store), cID, placementVector) + len(publicKeys))
+        ==> store.has(k) && store.get(k) == publicKeys[ctr(k) - lastCtr(old(store), cID, placementVector) - 1]
+  ensures [C14] forall k Bytes {store.opt(k)} :: !isNew(k, cID, placementVector, lastCtr(old(store), cID, placementVector), lastCtr(old(store), cID, placementVector) + len(publicKeys))
+        ==> store.opt(k) == old(store).opt(k)
+  ensures notifs == old(notifs)
+  loop 0
+    invariant counter == lastCtr(old(store), cID, placementVector) + $i && $i <= len(publicKeys) && commonPrefix == upre(cID, placementVector)
+    invariant forall j Int {publicKeys[j]} :: 0 <= j && j < $i ==> len(publicKeys[j]) == 33
+    invariant forall k Bytes {store.opt(k)} :: isNew(k, cID, placementVector, lastCtr(old(store), cID, placementVector), counter)
+        ==> store.has(k) && store.get(k) == publicKeys[ctr(k) - lastCtr(old(store), cID, placementVector) - 1]
+    invariant forall k Bytes {store.opt(k)} :: !isNew(k, cID, placementVector, lastCtr(old(store), cID, placementVector), counter)
+        ==> store.opt(k) == old(store).opt(k)
+    invariant notifs == old(notifs)
+
+// The commit: the committed roster n<cid>.. becomes the pending roster u<cid>.. key by key (same vector byte, same
+// counter bytes, same value; committed keys without a pending counterpart disappear), the pending roster is emptied,
+// the REP numbers r<cid><i> become exactly replicas[i], nothing else changes, one NodesUpdate(cid) is emitted.
+// Input assumption: the container id does not start with the ten bytes "nsHasAlias" (otherwise n<cid> is a prefix of alias keys).
+func CommitContainerListUpdate(cID, replicas)
+  ensures [C14] W(alphabet()) && len(cID) == 32
+  ensures [C14] forall k Bytes {store.opt(k)} :: prefix("u" ++ cID, k) ==> !store.has(k)
+  ensures [C14] forall k Bytes {store.opt(k)} :: prefix("n" ++ cID, k) ==> store.opt(k) == old(store).opt("u" ++ k[1:])
+  ensures [C14] forall t Int {replicas[t]} :: 0 <= t && t < len(replicas) ==> replicas[t] <= 255
+  ensures [C14] forall k Bytes {store.opt(k)} :: prefix("r" ++ cID, k) && len(k) == 34 && k[33] < len(replicas) ==> store.has(k) && store.get(k) == i2b(replicas[k[33]])
+  ensures [C14] forall k Bytes {store.opt(k)} :: prefix("r" ++ cID, k) && store.has(k) ==> len(k) == 34 && k[33] < len(replicas)
+  ensures [C14] forall k Bytes {store.opt(k)} :: !prefix("u" ++ cID, k) && !prefix("n" ++ cID, k) && !prefix("r" ++ cID, k) ==> store.opt(k) == old(store).opt(k)
+  ensures [C14] notifs == old(notifs) ++ [NodesUpdate(cID)]
+  loop 0
+    invariant forall j Int {$it.key(j)} :: 0 <= j && j < $it.pos ==> !store.has($it.key(j))
+    invariant forall k Bytes {store.opt(k)} :: !prefix("n" ++ cID, k) ==> store.opt(k) == old(store).opt(k)
+    invariant forall k Bytes {store.opt(k)} :: store.has(k) ==> store.opt(k) == old(store).opt(k)
+    invariant notifs == old(notifs)
+  loop 1
+    invariant forall j Int {$it.key(j)} :: 0 <= j && j < $it.pos ==> !store.has($it.key(j)) && store.opt("n" ++ $it.key(j)[1:]) == old(store).opt($it.key(j))
+    invariant forall k Bytes {store.opt(k)} :: prefix("u" ++ cID, k) && old(store).has(k) && $it.idx(k) >= $it.pos ==> store.opt(k) == old(store).opt(k)
+    invariant forall k Bytes {store.opt(k)} :: prefix("u" ++ cID, k) && !old(store).has(k) ==> !store.has(k)
+    invariant forall k Bytes {store.opt(k)} :: prefix("n" ++ cID, k) ==>
+        (entry(store).has("u" ++ k[1:]) && $it.idx("u" ++ k[1:]) < $it.pos ? store.opt(k) == entry(store).opt("u" ++ k[1:]) : !store.has(k))
+    invariant forall k Bytes {store.opt(k)} :: !prefix("u" ++ cID, k) && !prefix("n" ++ cID, k) ==> store.opt(k) == old(store).opt(k)
+    invariant notifs == old(notifs)
+  loop 2
+    invariant forall j Int {$it.key(j)} :: 0 <= j && j < $it.pos ==> !store.has($it.key(j))
+    invariant forall k Bytes {store.opt(k)} :: !prefix("r" ++ cID, k) ==> store.opt(k) == entry(store).opt(k)
+    invariant forall k Bytes {store.opt(k)} :: store.has(k) ==> store.opt(k) == entry(store).opt(k)
+    invariant notifs == old(notifs)
+  loop 3
+    invariant $i <= len(replicas)
+    invariant forall t Int {replicas[t]} :: 0 <= t && t < $i ==> replicas[t] <= 255
+    invariant forall k Bytes {store.opt(k)} :: prefix("r" ++ cID, k) && len(k) == 34 && k[33] < $i ==> store.has(k) && store.get(k) == i2b(replicas[k[33]])
+    invariant forall k Bytes {store.opt(k)} :: prefix("r" ++ cID, k) && store.has(k) ==> len(k) == 34 && k[33] < $i
+    invariant forall k Bytes {store.opt(k)} :: !prefix("r" ++ cID, k) ==> store.opt(k) == entry(store).opt(k)
+    invariant notifs == old(notifs)
+@*/
+
+/*@
+module rosterapi
+props C14
+use common core
+dialect neovm
+
+// C14, read side: nodes(cid, v) and replicasNumbers(cid) hand out an iterator over the values stored under exactly
+// n<cid><v> resp. r<cid> in the current store (options: values only = 4), i.e. in ascending key order. Key order is
+// submission order: the counter bytes of roster keys and the vector byte of REP keys compare like the numbers they encode.
+func Nodes(cID, placementVector) (r)
+  ensures [C14] len(cID) == 32 && r.prefix == "n" ++ cID ++ byte(placementVector) && r.opts == 4 && r.pos == 0 && r.store == old(store)
+  ensures [C14] store == old(store) && notifs == old(notifs)
+
+func ReplicasNumbers(cID) (r)
+  ensures [C14] len(cID) == 32 && r.prefix == "r" ++ cID && r.opts == 4 && r.pos == 0 && r.store == old(store)
+  ensures [C14] store == old(store) && notifs == old(notifs)
+
+// two roster keys of one vector compare like their counters (36 bytes: prefix byte, 32-byte id, vector byte, two counter bytes)
+lemma rosterKeyOrder [C14]: forall p Bytes, x Bytes, y Bytes :: len(x) == 2 && len(y) == 2 && x[0] < 256 && x[1] < 256 && y[0] < 256 && y[1] < 256
+      && x[0] * 256 + x[1] < y[0] * 256 + y[1] ==> lexlt(p ++ x, p ++ y)
+// two REP keys of one container compare like their vector indexes
+lemma repKeyOrder [C14]: forall p Bytes, a Int, b Int :: 0 <= a && a < b && b < 256 ==> lexlt(p ++ byte(a), p ++ byte(b))
 @*/
 
 /*@
